@@ -147,7 +147,7 @@ def run_parse(text, parser=None, want_tree=True, want_config=False, via_file=Non
 
     if parser is None:
         parser = ns.parser.Parser()
-    nbytes = len(text.encode("utf-8")) if isinstance(text, str) else len(text)
+    nbytes = len(text.encode("utf-8", "surrogatepass")) if isinstance(text, str) else len(text)
     budget = step_budget(nbytes)
     obs = Obs()
     state = {"steps": 0, "config": None}
